@@ -154,7 +154,7 @@ func c20Scenarios(r *hx.Run) []hx.Scenario {
 
 func c20Filter(sum *hx.SSummary) {
 	for k := range sum.Found {
-		if !strings.HasPrefix(k, "C20|") && !strings.HasPrefix(k, "panic|") && !strings.HasPrefix(k, "engine|") {
+		if !strings.HasPrefix(k, "C20|") && !strings.HasPrefix(k, "panic|") && !hx.KeptKey(k) {
 			delete(sum.Found, k)
 		}
 	}
